@@ -144,6 +144,8 @@ type PoolType struct {
 	FoldOnly  bool // has a custom folder: excluded from round trips
 	Recursive bool
 	Family    bool // member of the Rec2 family: only used where a fresh recursive type is wanted
+	// NeedsUnfoldOpts: the type is unfolded by a user unfolder registered through UnfoldOptions
+	NeedsUnfoldOpts bool
 }
 
 var Pool = []PoolType{
